@@ -417,14 +417,18 @@ def _purity_net():
     net = pp.create_empty_network(fluid="water")
     j = pp.create_junctions(net, 8, pn_bar=5, tfluid_k=320, height_m=[0, 1, 2, 3, 4, 5, 6, 7])
     pp.create_ext_grid(net, j[0], p_bar=6, t_k=350)
-    pp.create_pipe_from_parameters(net, j[0], j[1], 0.3, 0.1, k_mm=0.1, sections=3, u_w_per_m2k=5.0, text_k=280)
-    pp.create_pipe_from_parameters(net, j[1], j[2], 0.2, 0.08, k_mm=0.1, u_w_per_m2k=3.0)
+    pp.create_pipe_from_parameters(net, j[0], j[1], 0.3, 100., k_mm=0.1, sections=3, u_w_per_m2k=5.0, text_k=280)
+    pp.create_pipe_from_parameters(net, j[1], j[2], 0.2, 80., k_mm=0.1, u_w_per_m2k=3.0)
     pp.create_valve(net, j[2], j[3], "ju", 100.0, opened=True, loss_coefficient=0.5)
     pp.create_heat_exchanger(net, j[3], j[4], qext_w=2000., inner_diameter_mm=100.0)
     pp.create_pump(net, j[4], j[5], "P1")
-    pp.create_flow_control(net, j[5], j[6], controlled_mdot_kg_per_s=0.5)
-    pp.create_pipe_from_parameters(net, j[6], j[7], 0.2, 0.08, k_mm=0.1)
+    # (an ACTIVE flow controller in series makes the thermal calculation of this net fail -- kept inactive here; active
+    #  controllers are exercised by the oracles of C01 / C03 / C04)
+    pp.create_flow_control(net, j[5], j[6], controlled_mdot_kg_per_s=0.5, control_active=False)
+    pp.create_pipe_from_parameters(net, j[6], j[7], 0.2, 80., k_mm=0.1)
     pp.create_sink(net, j[7], 0.5)
+    pp.create_sink(net, j[6], np.nan)            # a missing mass flow counts as 0 in the calculation and stays missing in the table
+    pp.create_source(net, j[1], np.nan)
     pp.create_sink(net, j[2], 0.2, scaling=0.5)
     pp.create_source(net, j[3], 0.1)
     # optional column with missing entries (the column the pipe model post-processes)
@@ -518,6 +522,13 @@ def h_purity_history(inp, body):
         if a.shape != b.shape or not np.array_equal(a.values.astype(float), b.values.astype(float), equal_nan=True):
             diffs.append(t)
     return {"reproduced": bool(diffs), "observed": {"result_tables_that_differ": diffs}}
+
+
+def h_purity_any(inp, body):
+    """property-level fallback replay of C12: reproduced iff the purity diff or the history comparison fails"""
+    a = h_purity_diff(inp, body)
+    b = h_purity_history(inp, body)
+    return {"reproduced": bool(a["reproduced"] or b["reproduced"]), "observed": {"diff": a["observed"], "history": b["observed"]}}
 
 
 def h_pump_volume_flow(inp, body):
